@@ -760,6 +760,18 @@ class Explorer:
             except (SymUnsupported, Inconclusive) as e:
                 self.incomplete = self.incomplete or f"{type(e).__name__}: {e}"
                 self.stats.aborted += 1
+            except Exception as e:  # the real code raised on a feasible path: a candidate violation, decided by replay
+                import traceback as _tb
+
+                self.stats.paths += 1
+                ob = self.stats.obligations.setdefault("no_unexpected_exception", [0, 0])
+                ob[0] += 1
+                tb = "".join(_tb.format_exception(type(e), e, e.__traceback__)[-4:])[-700:]
+                if sum(1 for c in self.cex if c.label == "no_unexpected_exception") < self.max_cex_per_label:
+                    vals = {}
+                    if self._check() == z3.sat:
+                        vals = self.model_values(self.solver.model())
+                    self.cex.append(Cex("no_unexpected_exception", vals, f"{type(e).__name__}: {e} | {tb}", list(self.prefix[: self.pos]), kind="exception"))
             finally:
                 _CUR = prev
         return self
